@@ -1,0 +1,29 @@
+//go:build verif
+
+// Contracts for package generator, read by the verifier in /verif (govc). Comments only.
+
+package generator
+
+//@ func KeySize
+//@   property C12, C04
+//@   mode bv
+//@   requires[valid-field-number] 1 <= fieldNumber && fieldNumber < 536870912 && 0 <= wireType && wireType <= 5
+//@   loop 1: unroll 5
+//@   ensures[tag-length] result == VarintLen(uint64(uint32(fieldNumber))<<3 | uint64(uint32(wireType)))
+
+//@ func findFeatures
+//@   property C12
+//@   mode int
+//@   no-safety
+//@   note the "all" shortcut stops the scan: names after it are not looked at (as the code documents)
+//@   loop 1: invariant rangeidx > 0 ==> (featureNames[0] == "all" || has(defaultFeatures, featureNames[0]))
+//@   ensures[unknown-feature-is-an-error] result1 != nil ==> exists k in [0, len(featureNames)): !has(defaultFeatures, featureNames[k])
+//@   ensures[unknown-first-feature-is-rejected] len(featureNames) > 0 && featureNames[0] != "all" && !has(defaultFeatures, featureNames[0]) ==> result1 != nil
+//@   ensures[error-gives-no-features] result1 != nil ==> len(result0) == 0
+
+//@ func Generator.GenerateFile
+//@   property C12
+//@   mode int
+//@   no-safety
+//@   requires[non-nil] gen != nil && file != nil
+//@   ensures[proto2-files-produce-no-output] file.Desc.Syntax() != protoreflect.Proto3 ==> result == false
